@@ -67,6 +67,7 @@ func newEngine(repo, verif, tier string, patterns []string) (*engine, error) {
 	w.specReads = w.specFootprints()
 	e := &engine{w: w, verif: verif, tier: tier, vcCache: map[vcKey]*funcVC{}, vcErr: map[vcKey]error{}}
 	e.ma = w.computeModsets()
+	w.inScopeFn = e.inScope
 	w.loadSecs = time.Since(t0).Seconds()
 	e.opts = solveOpts{timeout: 10 * time.Second, workers: 14}
 	if tier == "thorough" {
